@@ -106,6 +106,11 @@ with eqcc (x y : cond) {struct x} : bool :=
   | NotC a => match y with NotC a' => eqcc a a' | _ => false end
   end.
 
+(* handlers with the one-argument signature (self, o) are MultiFunction cutoff types: map_expr_dag does
+   not visit their operands.  [check] and [remove] visit every operand, so the model expects none. *)
+Definition cc_cutoff_handlers : list String.string := [].
+Definition rm_cutoff_handlers : list String.string := [].
+
 Definition ty_code (t : ty) : nat := match t with TReal => 0 | TComplex => 1 | TBool => 2 end.
 
 (* model verdict on [inp] agrees with the implementation's verdict / output tree / root nodetype *)
